@@ -101,3 +101,61 @@ class ValidateSectionColumns(Contract):
 
 
 UNITS = [ValidateMargin(), ValidatePageByLogic(), ValidateSectionColumns()]
+
+
+def _page_defaults_contract(method, w0, h0, gap, nrow0):
+    class PageDefaults(Contract):
+        __doc__ = (f"RTFPage.{method}(): a paper width / height / margin list / table width / nrow the user configured (validated positive) is kept; "
+                   f"an unset one becomes the orientation's default (width {w0}, height {h0}, table width = width - {gap}, nrow {nrow0}) - C06: the page "
+                   "geometry is the configured one, C03 / C04: the row budget is the configured nrow.")
+        target = f"input.py::RTFPage.{method}"
+        serves = ["C06", "C03"]
+        variants = ["all_configured", "nothing_configured", "only_width_configured"]
+
+        def setup(self, c):
+            var = c.variant
+            cls = c.cls("rtflite.input", "RTFPage")
+            f = {}
+            if var == "all_configured":
+                f = {"width": c.fresh("width", T.Real), "height": c.fresh("height", T.Real), "margin": c.fresh("margin", T.List(T.Real, minlen=6)),
+                     "col_width": c.fresh("col_width", T.Real), "nrow": c.fresh("nrow", T.Int)}
+                for k in ("width", "height", "col_width", "nrow"):
+                    c.requires(f"{k}_positive", f[k] > 0)            # validate_width_height / positive-value validators (C19 carriers)
+            elif var == "only_width_configured":
+                f = {"width": c.fresh("width", T.Real), "height": None, "margin": None, "col_width": None, "nrow": None}
+                c.requires("width_positive", f["width"] > 0)
+            else:
+                f = {"width": None, "height": None, "margin": None, "col_width": None, "nrow": None}
+            me = c.alloc(RecObj("RTFPage", dict(f), pyclass=cls, fresh=False))
+            c.bind("self", me)
+            c.v.update(me=me, f=f)
+
+        def ensures(self, c, out):
+            from pyvc import ops
+            st, f, var = out.state, c.v["f"], c.variant
+            g = st.obj(c.v["me"]).fields
+            R = lambda x: ops.to_real(x)
+            cl = {}
+            if var == "all_configured":
+                for k in ("width", "height", "col_width"):
+                    cl[f"C06.configured_{k}_is_kept"] = R(g[k]) == R(f[k])
+                cl["C03.configured_nrow_is_kept"] = to_z3(g["nrow"]) == to_z3(f["nrow"])
+                cl["C06.configured_margins_are_kept"] = z3.BoolVal(isinstance(g["margin"], Ref) and g["margin"].oid == f["margin"].oid)
+            elif var == "only_width_configured":
+                cl["C06.configured_width_is_kept"] = R(g["width"]) == R(f["width"])
+                cl["C06.table_width_defaults_to_the_configured_width_minus_the_margin_gap"] = R(g["col_width"]) == R(f["width"]) - z3.RealVal(str(gap))
+                cl["C03.nrow_defaults"] = to_z3(g["nrow"]) == nrow0
+            else:
+                cl["C06.default_paper_size"] = And(R(g["width"]) == z3.RealVal(str(w0)), R(g["height"]) == z3.RealVal(str(h0)))
+                cl["C06.default_table_width"] = R(g["col_width"]) == z3.RealVal(str(w0)) - z3.RealVal(str(gap))
+                cl["C03.nrow_defaults"] = to_z3(g["nrow"]) == nrow0
+                m = g["margin"]
+                cl["C06.default_margins_are_six_values"] = z3.BoolVal(isinstance(m, Ref) and st.obj(m).items is not None and len(st.obj(m).items) == 6)
+            return cl
+    PageDefaults.__name__ = "PageDefaults_" + method
+    return PageDefaults
+
+
+PortraitDefaults = _page_defaults_contract("_set_portrait_defaults", 8.5, 11, 2.25, 40)
+LandscapeDefaults = _page_defaults_contract("_set_landscape_defaults", 11, 8.5, 2.5, 24)
+UNITS.extend([PortraitDefaults(), LandscapeDefaults()])
